@@ -4,8 +4,8 @@ of the reference module that contains only the public declarations with their bo
 import time
 from . import replayrun
 
-KINDS = ['fn_body', 'fn_head', 'const', 'struct', 'extern_fn_body', 'opaque', 'extern_fn_head', 'word', 'import']
-NO_BODY = ['fn_head', 'const', 'struct', 'opaque', 'extern_fn_head', 'word', 'import']
+KINDS = ['fn_body', 'fn_head', 'const', 'struct', 'extern_fn_body', 'opaque', 'extern_fn_head', 'word', 'import', 'const_ref', 'const_array', 'const_struct']
+NO_BODY = ['fn_head', 'const', 'struct', 'opaque', 'extern_fn_head', 'word', 'import', 'const_ref', 'const_array', 'const_struct']
 
 
 def decl(kind, name, pub):
@@ -31,6 +31,16 @@ def decl(kind, name, pub):
     elif kind == 'word':
         full = '%sword32 %s\n{\n\ta: u16,\n\tb: u16,\n}\n' % (p, name.capitalize())
         head = 'pub word32 %s\n{\n\ta: u16,\n\tb: u16,\n}\n' % name.capitalize()
+    elif kind == 'const_ref':
+        # a value that names other identifiers (bare references), whatever they are
+        full = '%sconst %s_R: i32 = WIDTH * HEIGHT + other.x - -DEPTH;\n' % (p, name.upper())
+        head = 'pub const %s_R: i32 = WIDTH * HEIGHT + other.x - -DEPTH;\n' % name.upper()
+    elif kind == 'const_array':
+        full = '%sconst %s_A: [4]i32 = [2, 3, 5, LAST];\n' % (p, name.upper())
+        head = 'pub const %s_A: [4]i32 = [2, 3, 5, LAST];\n' % name.upper()
+    elif kind == 'const_struct':
+        full = '%sconst %s_S: Pair = Pair { first: 1, second: [ONE, 2] };\n' % (p, name.upper())
+        head = 'pub const %s_S: Pair = Pair { first: 1, second: [ONE, 2] };\n' % name.upper()
     elif kind == 'const':
         full = '%sconst %s: i32 = 1 + 2;\n' % (p, name.upper())
         head = 'pub const %s: i32 = 1 + 2;\n' % name.upper()
@@ -42,37 +52,41 @@ def decl(kind, name, pub):
 
 def expected_header_xml(tree_xml):
     """the property read directly on the XML dump: the header is the tree restricted to the declarations flagged Public,
-    in order, with that flag cleared and every <FunctionBody> element removed; everything else identical"""
+    in order, with that flag cleared and every <FunctionBody> element removed; everything else identical.
+    Top-level elements are the `<...Declaration>` elements (they do not nest); the dump is not always balanced XML inside a
+    declaration (`<IdentifierAndExpression .. />` is later closed by `</IdentifierAndExpression>`), so nesting is not counted."""
     import re
     out = []
-    depth = 0
     keep = False
-    skip_body = 0
+    in_decl = False
+    in_body = False
     for line in tree_xml.split('\n'):
         t = line.strip()
         if not t:
             continue
-        closing = t.startswith('</')
-        selfclosing = t.endswith('/>')
-        if depth == 0 and not closing:
+        m0 = re.match(r'<(?!VariableDeclaration)(\w+Declaration)\b', t)
+        if not in_decl and not in_body and m0:
+            in_decl = not t.endswith('/>')
             m = re.search(r'flags="([^"]*)"', t)
             flags = m.group(1).split('|') if m and m.group(1) else []
             keep = 'Public' in flags
             if keep:
-                t = t.replace('flags="%s"' % m.group(1), 'flags="%s"' % '|'.join(f for f in flags if f != 'Public'))
-        if skip_body == 0 and t.startswith('<FunctionBody') and not selfclosing:
-            skip_body = 1
-        elif skip_body > 0:
-            if closing:
-                skip_body -= 1
-            elif not selfclosing:
-                skip_body += 1
-        elif keep:
+                out.append(t.replace('flags="%s"' % m.group(1), 'flags="%s"' % '|'.join(f for f in flags if f != 'Public')))
+            continue
+        if in_decl and not in_body and re.match(r'</(?!VariableDeclaration)\w+Declaration>', t):
+            in_decl = False
+            if keep:
+                out.append(t)
+            continue
+        if not in_body and t.startswith('<FunctionBody') and not t.endswith('/>'):
+            in_body = True
+            continue
+        if in_body:
+            if t.startswith('</FunctionBody>'):
+                in_body = False
+            continue
+        if keep:
             out.append(t)
-        if closing:
-            depth -= 1
-        elif not selfclosing:
-            depth += 1
     return out
 
 
